@@ -70,6 +70,8 @@ class World:
         self.lang_of = []
         self.specs = []      # completed op list (what the model receives)
         self.last_exc = None
+        self.cells = []      # caller-owned argument objects (dicts / lists), C13
+        self.with_cells = False
 
     # ---------------------------------------------------------------- argument decoding
     def _arg(self, a):
@@ -147,6 +149,38 @@ class World:
                 self.specs.append(op)
                 arg = dict((k, v) for k, v in op[2]) if isinstance(op[2], list) else op[2]
                 self.objs[op[1]].typ(arg)
+            elif tag == "clone":
+                load(self.lang_of[op[1]])
+                self.specs.append(op)
+                self._clone(op[1])
+            elif tag == "cell":
+                self.specs.append(op)
+                c = op[1]
+                self.cells.append(dict((k, v) for k, v in c["dict"]) if "dict" in c else [self._arg(a) for a in c["list"]])
+            elif tag == "mut":
+                self.specs.append(op)
+                c, obj = op[2], self.cells[op[1]]
+                if isinstance(obj, dict):
+                    obj.clear()
+                    obj.update(dict((k, v) for k, v in c["dict"]))
+                else:
+                    obj[:] = [self._arg(a) for a in c["list"]]
+            elif tag == "typC":
+                load(self.lang_of[op[1]])
+                self.specs.append(op)
+                self.objs[op[1]].typ(self.cells[op[2]])
+            elif tag == "mkPC":
+                load(op[2])
+                self.specs.append(op)
+                o = getattr(pyrealb, op[1])(self.cells[op[3]], lang=op[2])
+                self._new(o, op[2])
+            elif tag == "addC":
+                load(self.lang_of[op[1]])
+                self.specs.append(op)
+                if op[3] is None:
+                    self.objs[op[1]].add(self.cells[op[2]])
+                else:
+                    self.objs[op[1]].add(self.cells[op[2]], op[3])
             else:
                 raise ValueError("unknown op %r" % (tag,))
         except Exception as e:  # noqa
@@ -186,6 +220,55 @@ class World:
             except Exception:  # noqa
                 d["gram0"] = None
         return d
+
+    # ---------------------------------------------------------------- clone (C13)
+    @staticmethod
+    def _edges(o):
+        """the constituents directly referenced by o, in a fixed order"""
+        kids = getattr(o, "elements", None)
+        if kids is None:
+            kids = getattr(o, "dependents", [])
+        res = list(kids)
+        for a in ("terminal", "parentConst", "cod", "subject"):
+            v = o.__dict__.get(a)
+            if v is not None and hasattr(v, "constType"):
+                res.append(v)
+        return res
+
+    def _clone(self, x):
+        """x.clone(); the copies of the nodes of the connected tree of x are registered in the order of the handles of
+        their originals (what Model/HeapClone.cloneRegion does)"""
+        orig = self.objs[x]
+        cp = orig.clone()
+        pair = {id(orig): (orig, cp)}
+        todo = [(orig, cp)]
+        while todo:
+            a, b = todo.pop()
+            ea, eb = self._edges(a), self._edges(b)
+            if len(ea) != len(eb):
+                raise AssertionError("clone: different shapes")
+            for u, v in zip(ea, eb):
+                if id(u) not in pair:
+                    pair[id(u)] = (u, v)
+                    todo.append((u, v))
+        hs = sorted(self.idx[i] for i in pair if i in self.idx)
+        if len(hs) != len(pair):
+            raise AssertionError("clone: a node outside the handle table is reachable")
+        for hdl in hs:
+            self._new(pair[id(self.objs[hdl])][1], self.lang_of[hdl])
+
+    def _cell_notation(self, c):
+        if isinstance(c, dict):
+            return {"dict": sorted([k, _val(v)] for k, v in c.items())}
+
+        def conv(a):
+            if a is None:
+                return None
+            if isinstance(a, (list, tuple)):
+                return [conv(x) for x in a]
+            h = self.idx.get(id(a))
+            return h if h is not None else {"bad": 1}
+        return {"list": [conv(a) for a in c]}
 
     # ---------------------------------------------------------------- abstraction
     def _h(self, o):
@@ -227,7 +310,11 @@ class World:
             if tc == i:
                 tx = o.taux
                 trecs[str(i)] = {k: _val(tx[k]) for k in ("t", "aux") if k in tx}
-        return {"nodes": nodes, "recs": recs, "trecs": trecs, "w": _state["warns"]}
+        res = {"nodes": nodes, "recs": recs, "trecs": trecs, "w": _state["warns"]}
+        if self.with_cells:
+            res["cells"] = [self._cell_notation(c) for c in self.cells]
+            res["loc"] = True
+        return res
 
     def run(self, ops, snaps=True):
         """returns (list of snapshots after each successful op, "ok" | exception name)"""
